@@ -139,14 +139,25 @@ class Pif(FunctionPattern):
         true_stream = stm.stream(self.iftrue)
         false_stream = stm.stream(self.iffalse)
 
+        ended = False
+
         def next_func(inval):
-            test = cond_stream.next(inval)
-            if test:
-                return true_stream.next(inval)
-            else:
-                return false_stream.next(inval)
+            nonlocal ended
+            if ended:  # A finished stream stays finished.
+                raise stm.StopStream
+            try:
+                test = cond_stream.next(inval)
+                if test:
+                    return true_stream.next(inval)
+                else:
+                    return false_stream.next(inval)
+            except stm.StopStream:
+                ended = True
+                raise
 
         def reset_func():
+            nonlocal ended
+            ended = False
             cond_stream.reset()
             true_stream.reset()
             false_stream.reset()
